@@ -3,6 +3,7 @@ C15 — results depend only on text and settings, not on what ran before.
 The TRS cache is part of the model's `World`; the theorems show it is semantically transparent.
 -/
 import PyTRS.Model.World
+set_option linter.unusedSimpArgs false
 namespace PyTRS
 open PyTRS.World PyTRS.TRS
 
@@ -92,5 +93,149 @@ theorem C15_run_cache_ok (ops : List Op) : ∀ (w : World.World), CacheOK w → 
     intro w h
     simp only [run]
     exact ih _ (C15_step_cache_ok w op h)
+
+end PyTRS
+
+namespace PyTRS
+open PyTRS.World PyTRS.TRS
+
+/-- two worlds that differ at most in the TRS cache (its content and whether it is enabled) -/
+def SameButCache (w w' : World.World) : Prop :=
+  w.mc = w'.mc ∧ w.nextUid = w'.nextUid ∧ w.descs = w'.descs ∧ w.tracts = w'.tracts
+
+@[simp] theorem fill_mc (w : World.World) (k : List Str) : (w.fill k).mc = w.mc := by unfold World.fill; split <;> rfl
+@[simp] theorem fill_nextUid (w : World.World) (k : List Str) : (w.fill k).nextUid = w.nextUid := by unfold World.fill; split <;> rfl
+@[simp] theorem fill_descs (w : World.World) (k : List Str) : (w.fill k).descs = w.descs := by unfold World.fill; split <;> rfl
+@[simp] theorem fill_tracts (w : World.World) (k : List Str) : (w.fill k).tracts = w.tracts := by unfold World.fill; split <;> rfl
+@[simp] theorem putDesc_mc (w : World.World) (i : Nat) (d : Obj.DescObj) : (putDesc w i d).mc = w.mc := rfl
+@[simp] theorem putDesc_nextUid (w : World.World) (i : Nat) (d : Obj.DescObj) : (putDesc w i d).nextUid = w.nextUid := rfl
+@[simp] theorem putDesc_tracts (w : World.World) (i : Nat) (d : Obj.DescObj) : (putDesc w i d).tracts = w.tracts := rfl
+@[simp] theorem putDesc_descs (w : World.World) (i : Nat) (d : Obj.DescObj) :
+    (putDesc w i d).descs = (w.descs.filter (fun e => e.1 != i)) ++ [(i, d)] := rfl
+@[simp] theorem putTract_mc (w : World.World) (i : Nat) (t : Obj.TractObj) : (putTract w i t).mc = w.mc := rfl
+@[simp] theorem putTract_nextUid (w : World.World) (i : Nat) (t : Obj.TractObj) : (putTract w i t).nextUid = w.nextUid := rfl
+@[simp] theorem putTract_descs (w : World.World) (i : Nat) (t : Obj.TractObj) : (putTract w i t).descs = w.descs := rfl
+@[simp] theorem putTract_tracts (w : World.World) (i : Nat) (t : Obj.TractObj) :
+    (putTract w i t).tracts = (w.tracts.filter (fun e => e.1 != i)) ++ [(i, t)] := rfl
+
+/-- One operation: its output, and the world it leaves behind (cache aside), do not depend on what the cache holds
+    or whether it is enabled — cold, warm, disabled or cleared, as long as the cache invariant holds (and it always
+    does, `C15_run_cache_ok`). -/
+theorem C15_step_cache_independent (w w' : World.World) (op : Op)
+    (hs : SameButCache w w') (hc : CacheOK w) (hc' : CacheOK w') :
+    (step w op).2 = (step w' op).2 ∧ SameButCache (step w op).1 (step w' op).1 := by
+  have hl : w.look = w'.look := by rw [C15_look_funext w hc, C15_look_funext w' hc']
+  obtain ⟨h1, h2, h3, h4⟩ := hs
+  have hgd : ∀ id, getDesc w id = getDesc w' id := fun id => by simp [getDesc, h3]
+  have hgt : ∀ id, getTract w id = getTract w' id := fun id => by simp [getTract, h4]
+  have hs : SameButCache w w' := ⟨h1, h2, h3, h4⟩
+  cases op with
+  | setMC ns ew => exact ⟨rfl, rfl, h2, h3, h4⟩
+  | cacheOn b => exact ⟨rfl, h1, h2, h3, h4⟩
+  | cacheClear => exact ⟨rfl, h1, h2, h3, h4⟩
+  | warm trs =>
+    simp only [step]
+    exact ⟨by rw [hl], by simp [SameButCache, h1, h2, h3, h4]⟩
+  | toDict trs => exact ⟨rfl, hs⟩
+  | toDictObj trs =>
+    simp only [step]
+    exact ⟨by rw [hl], by simp [SameButCache, h1, h2, h3, h4]⟩
+  | newDesc id text layout cfg pq src wait =>
+    simp only [step]
+    rw [h1, h2, hl]
+    split
+    · exact ⟨rfl, hs⟩
+    · split
+      · exact ⟨rfl, hs⟩
+      · exact ⟨rfl, by simp [SameButCache, h1, h2, h3, h4]⟩
+  | descParse id kw commit =>
+    simp only [step]
+    rw [hgd id, h1, h2, hl]
+    split
+    · exact ⟨rfl, hs⟩
+    · split
+      · exact ⟨rfl, hs⟩
+      · split
+        · exact ⟨rfl, hs⟩
+        · exact ⟨rfl, by simp [SameButCache, h1, h2, h3, h4]⟩
+  | descParseTracts id cfg kw =>
+    simp only [step]
+    rw [hgd id]
+    split
+    · exact ⟨rfl, hs⟩
+    · split
+      · exact ⟨rfl, hs⟩
+      · exact ⟨rfl, by simp [SameButCache, h1, h2, h3, h4]⟩
+  | descPreprocess id commit =>
+    simp only [step]
+    rw [hgd id, h1]
+    split
+    · exact ⟨rfl, hs⟩
+    · split
+      · exact ⟨rfl, hs⟩
+      · exact ⟨rfl, by simp [SameButCache, h1, h2, h3, h4]⟩
+  | descConfig id cfg =>
+    simp only [step]
+    rw [hgd id]
+    split
+    · exact ⟨rfl, hs⟩
+    · split
+      · exact ⟨rfl, hs⟩
+      · exact ⟨rfl, by simp [SameButCache, h1, h2, h3, h4]⟩
+  | descSort id key reverse =>
+    simp only [step]
+    rw [hgd id]
+    split
+    · exact ⟨rfl, hs⟩
+    · split <;> exact ⟨rfl, by simp [SameButCache, h1, h2, h3, h4]⟩
+  | newTract id text trs cfg pq =>
+    simp only [step]
+    rw [h2, hl]
+    split
+    · exact ⟨rfl, hs⟩
+    · split
+      · exact ⟨rfl, hs⟩
+      · exact ⟨rfl, by simp [SameButCache, h1, h2, h3, h4]⟩
+  | tractParse id kw commit =>
+    simp only [step]
+    rw [hgt id]
+    split
+    · exact ⟨rfl, hs⟩
+    · split
+      · exact ⟨rfl, hs⟩
+      · split
+        · exact ⟨rfl, hs⟩
+        · exact ⟨rfl, by simp [SameButCache, h1, h2, h3, h4]⟩
+  | tractPreprocess id c commit =>
+    simp only [step]
+    rw [hgt id]
+    split
+    · exact ⟨rfl, hs⟩
+    · exact ⟨rfl, by simp [SameButCache, h1, h2, h3, h4]⟩
+  | tractConfig id cfg =>
+    simp only [step]
+    rw [hgt id]
+    split
+    · exact ⟨rfl, hs⟩
+    · split
+      · exact ⟨rfl, hs⟩
+      · exact ⟨rfl, by simp [SameButCache, h1, h2, h3, h4]⟩
+  | findTwprge text ns ew pre ocr =>
+    simp only [step]
+    rw [h1]
+    split <;> exact ⟨rfl, hs⟩
+
+/-- Whole histories: the sequence of outputs is the same whatever the cache held initially and however the
+    history switches it on, off or clears it relative to another run — in particular it equals the outputs of the
+    same history run with the cache disabled and empty. -/
+theorem C15_run_cache_independent (ops : List Op) : ∀ (w w' : World.World),
+    SameButCache w w' → CacheOK w → CacheOK w' → (run w ops).2 = (run w' ops).2 := by
+  induction ops with
+  | nil => intro w w' _ _ _; rfl
+  | cons op rest ih =>
+    intro w w' hs hc hc'
+    simp only [run]
+    obtain ⟨ho, hs'⟩ := C15_step_cache_independent w w' op hs hc hc'
+    rw [ho, ih _ _ hs' (C15_step_cache_ok w op hc) (C15_step_cache_ok w' op hc')]
 
 end PyTRS
